@@ -282,6 +282,18 @@ def check(prog, res, tier):
                 if e.kind == 'setitem' and e.under(up.name) and isinstance(e.data['key'], SeqV) and e.data['key'].segs \
                         and isinstance(e.data['key'].segs[0], Lit):
                     keyprefix.add(e.data['key'].segs[0].data)
+        # keys of a result built in one go ({"PDS" + tag: data for ...}, dict(pairs), update(pairs))
+        for p in up.runs.inv:
+            if p.outcome != 'return' or not isinstance(p.value, DictV):
+                continue
+            keys = [k for k, _v in p.value.sym_stores]
+            comp = getattr(p.value, 'comp', None)
+            if comp is not None and isinstance(comp[0], TupleV) and len(comp[0].items) == 2:
+                keys.append(comp[0].items[0])
+            for k in keys:
+                k = p.interp.resolve(k)
+                if isinstance(k, SeqV) and k.segs and isinstance(k.segs[0], Lit):
+                    keyprefix.add(k.segs[0].data)
         want = {(Lin.const(4), Lin.const(3))}
         if blocked_b is not None:
             ob.verdict, ob.detail = UNDECIDED, f'the decoder walk is not fully interpreted: {blocked_b}'
@@ -289,6 +301,8 @@ def check(prog, res, tier):
             ob.verdict, ob.detail = PROVED, 'decoder slice widths (4, 3), radix 10, key prefix PDS'
         elif not widths or any(len(w) < 2 for w in widths):
             ob.verdict, ob.detail = UNDECIDED, 'decoder loop not analysed'
+        elif not keyprefix or not bases:
+            ob.verdict, ob.detail = UNDECIDED, 'the keys of the returned sub-elements / the radix of the length were not observed'
         else:
             ob.verdict = REFUTED
             ob.detail = f'decoder reads widths {sorted(map(str, widths))} radix {sorted(bases)} key prefix {sorted(keyprefix)}; packer writes (4, 3) radix 10 prefix PDS'
